@@ -25,6 +25,11 @@ def work_dir():
     return _work
 
 
+def cleanup():
+    if _work is not None:
+        shutil.rmtree(_work, ignore_errors=True)
+
+
 def sub_dir(name):
     d = os.path.join(work_dir(), name)
     os.makedirs(d, exist_ok=True)
